@@ -39,12 +39,12 @@ MODEL = dict(
     bin="feefwd",
     trace="Trace_FeeForwarder",
     mc=[
-        _mc("pl", "permissionless", depth=2, tdepth=3, every=12, tevery=150, **_full),
-        _mc("pd", "permissioned", depth=2, tdepth=3, every=12, tevery=150, **_full),
-        _mc("pd_list", "permissioned", depth=5, tdepth=6, every=15, tevery=60, **_list),
-        _mc("lib_eager_list", "lib", "Eager", depth=4, tdepth=5, every=4, tevery=20,
+        _mc("pl", "permissionless", depth=2, tdepth=3, every=12, tevery=10, **_full),
+        _mc("pd", "permissioned", depth=2, tdepth=3, every=12, tevery=10, **_full),
+        _mc("pd_list", "permissioned", depth=5, tdepth=6, every=15, tevery=4, **_list),
+        _mc("lib_eager_list", "lib", "Eager", depth=4, tdepth=5, every=4, tevery=4,
             LToks={"t1", "t2", "t3"}, FToks={"t1", "t2"}, Fees={1, 2}, Maxs={1, 2}),
-        _mc("lib_lazy", "lib", "Lazy", depth=2, tdepth=3, every=6, tevery=60,
+        _mc("lib_lazy", "lib", "Lazy", depth=2, tdepth=3, every=6, tevery=6,
             **dict(_full, Fees={0, 1, 3}, Maxs={1, 2}, WithNeg=F, Users={"u"}, Rels={"r"}, RAuths={T})),
         # vacuity guards: seeded model bugs must be seen by the monitors
         _mc("pd", "permissioned", bug="fee_gt_max", depth=2, **_full),
